@@ -814,8 +814,12 @@ def do_replay(a):
             weave(repo, [u])
             hs = [h for h in u.harnesses if h.fq == rp['harness']]
             res, cmd, out = run_native(repo, hs, os.path.join(OUT_DIR, 'replay.native.log'))
-            log(native_failure_excerpt(out, hs[0].name))
-            return 1 if res.get(hs[0].name) == 'FAILED' else 0
+            if res.get(hs[0].name) == 'FAILED':
+                log(native_failure_excerpt(out, hs[0].name)[:4000])
+                log('native replay: the enumeration fails on this tree')
+                return 1
+            log('native replay: the enumeration passes on this tree' if res.get(hs[0].name) == 'ok' else 'native replay: did not run: ' + out[-500:])
+            return 0
         finally:
             shutil.rmtree(scratch, ignore_errors=True)
     if not rp.get('playback_tests'):
